@@ -33,6 +33,7 @@ func init() {
 		"veqstr":       func(e *Exec, a []Value) Value { return e.strEq(a[0].(Str), a[1].(Str)) },
 		"vsymstr":      primSymStr,
 		"vscannerSplit": primScannerSplit,
+		"vsolver":       primSolver,
 		"vdeepequal":    primDeepEqual,
 	}
 }
@@ -398,4 +399,29 @@ func primDeepEqual(e *Exec, a []Value) Value {
 		return e.equals(x, y)
 	}
 	return eq(a[0], a[1])
+}
+
+// vsolver(name): route this harness's queries to another solver ("cvc5", "z3", "z3-new"); must precede any symbolic term.
+func primSolver(e *Exec, a []Value) Value {
+	name := a[0].(Str).Conc()
+	if e.nterm > 0 {
+		panic("vsolver after symbolic terms were created")
+	}
+	so := e.extraSolvers[name]
+	if so == nil || so.dead {
+		ns, err := NewSolver(name, e.sol.timeout, "")
+		if err != nil {
+			panic(unsupported("cannot start solver " + name))
+		}
+		if so != nil {
+			ns.Queries, ns.Sat, ns.Unsat, ns.Unknown, ns.Errors, ns.Time = so.Queries, so.Sat, so.Unsat, so.Unknown, so.Errors, so.Time
+			so.Close()
+		}
+		so = ns
+		e.extraSolvers[name] = so
+	}
+	e.sol.Pop()
+	e.sol = so
+	e.sol.Push()
+	return nil
 }
